@@ -24,6 +24,11 @@ def model_check(rep, tier, cov):
     # informative: the collector as written in the pinned tree (roots scanned once) is unsafe at design level
     res2 = vlib.tlc(os.path.join(VM, "AbraGC.tla"), cfg=os.path.join(VM, "MCAbraGC_asis.cfg"), workers=2, timeout=600)
     cov["scan_roots_once_design_has_counterexample"] = bool(res2.violation)
+    # ... and of "rescan only the running frame" (RescanScope = "frame"): a caller slot that received a white value is missed
+    res3 = vlib.tlc(os.path.join(VM, "AbraGC.tla"), cfg=os.path.join(VM, "MCAbraGC_framescan.cfg"), workers=2, timeout=600)
+    cov["rescan_running_frame_only_design_has_counterexample"] = bool(res3.violation)
+    if not res2.violation or not res3.violation:
+        raise vlib.ToolError("AbraGC.tla no longer refutes the two unsafe collector designs: the model lost its teeth")
 
 
 def gen_programs(prop, tier, seed):
